@@ -44,3 +44,7 @@ impl vstd::std_specs::ops::AddSpecImpl<Duration> for SystemTime {
 pub uninterp spec fn le64(t: u64) -> Seq<u8>;
 pub broadcast axiom fn axiom_le64(t: u64, u: u64) ensures (#[trigger] le64(t) == #[trigger] le64(u)) ==> t == u;
 pub broadcast axiom fn axiom_le64_len(t: u64) ensures (#[trigger] le64(t)).len() == 8;
+
+/// E16: `t.to_le_bytes()` for t: u64 — ASSUMED [L-STD]
+#[verifier::external_body]
+pub fn u64_to_le_bytes(t: u64) -> (r: [u8; 8]) ensures r@ == le64(t) { unimplemented!() }
